@@ -27,7 +27,7 @@ type aclObs struct {
 	Addr     string          `json:"addr"`
 	ARules   json.RawMessage `json:"arules"`
 	AAddr    json.RawMessage `json:"aaddr"`
-	Reply    string          `json:"reply"`    // ok | error | other
+	Reply    string          `json:"reply"` // ok | error | other
 	Line     string          `json:"line"`
 	Trailing int             `json:"trailing"` // bytes the daemon sent after the @ERROR line
 }
